@@ -318,8 +318,57 @@ def run_history(case, ctx):
     ctx.mark_nontrivial(bool(m.flags & nt))
 
 
+def long_strategy():
+    return st.fixed_dictionaries({
+        'with_altitude': st.booleans(),
+        'pva': gen.pva_strategy(max_lat=80.0),
+        'n': st.sampled_from([1000, 1001, 1500, 2047, 2500, 3000, 4100]),
+        'cuts': st.lists(st.one_of(st.floats(0.01, 0.99), st.sampled_from([0.25, 0.5, 1000 / 4100, 999 / 3000, 1024 / 2500])), min_size=1, max_size=5),
+        'cap': st.sampled_from([None, None, 1000, 1024, 2048, 64]),
+        'sub': st.integers(0, 2 ** 31 - 1),
+    })
+
+
+def run_long(case, ctx):
+    """Long records (thousands of rows): one integrate() call against the same rows fed in several calls, with the default or a
+    smaller buffer capacity, and predict() before every continuation. Anything counted per call (a periodic clean-up, a
+    reallocation that re-derives state) shows here and not in the short histories of the other clause."""
+    from pyins import strapdown
+    n = case['n']
+    inc = gen.increments_table(case['sub'], n, kind='uniform', theta_max=0.02, dv_max=0.2, vertical=-9.8)
+    pva = gen.to_pva(case['pva'], 0.0)
+    if not case['with_altitude']:
+        pva['VD'] = 0.0
+    default_cap = strapdown.Integrator.INITIAL_SIZE
+    try:
+        one = ctx.sut(strapdown.Integrator(pva, case['with_altitude']).integrate, inc)
+        if case['cap'] is not None:
+            strapdown.Integrator.INITIAL_SIZE = case['cap']
+        cuts = sorted({min(n - 1, max(1, int(round(c * n)))) for c in case['cuts']})
+        it = strapdown.Integrator(pva, case['with_altitude'])
+        parts, lo = [], 0
+        for hi in cuts + [n]:
+            pred = ctx.sut(it.predict, inc.iloc[lo])
+            ctx.check(bits_equal(pred.values.astype(float), one.iloc[lo + 1].values.astype(float)), 'long_predict_differs',
+                      lambda: f'predict before row {lo + 1} of {n}: {pred.values.tolist()} vs the single call {one.iloc[lo + 1].values.tolist()}')
+            parts.append(ctx.sut(it.integrate, inc.iloc[lo:hi]))
+            lo = hi
+        tr = it.trajectory
+    finally:
+        strapdown.Integrator.INITIAL_SIZE = default_cap
+    ctx.check(len(tr) == n + 1 and np.array_equal(np.asarray(tr.index, float), np.asarray(one.index, float)), 'long_index', f'{len(tr)} vs {n + 1}')
+    if not bits_equal(tr.values.astype(float), one.values.astype(float)):
+        bad = np.argwhere(np.ascontiguousarray(tr.values.astype(float)).view(np.uint64) != np.ascontiguousarray(one.values.astype(float)).view(np.uint64))
+        r, c = bad[0]
+        ctx.check(False, 'long_history_dependent', f'n={n} calls cut at {cuts} capacity {case["cap"]}: first difference at row {r} column {tr.columns[c]}: '
+                  f'{tr.values[r, c]!r} vs single call {one.values[r, c]!r}; {len(bad)} cells differ')
+    ctx.label(f'calls={len(cuts) + 1}', f'capacity={case["cap"]}', 'n>=2000' if n >= 2000 else 'n<2000')
+    ctx.mark_nontrivial(len(cuts) >= 1 and n >= 1000)
+
+
 CLAUSES = [
     Clause('history', case_strategy(), run_history, quick=(240, 8), thorough=(8000, 16)),
+    Clause('long', long_strategy, run_long, quick=(48, 8), thorough=(1600, 16)),
 ]
 
 
